@@ -338,20 +338,61 @@ def run_C01(ctx: Ctx) -> Result:
     return res
 
 
+def state_prefixes():
+    """a shortest line-kind path to every state of the current parser.py (guards taken optimistically)"""
+    from translate import parser_table
+    t = parser_table.extract(open(os.path.join(core.REPO, "python/gherkin/parser.py"), encoding="utf8").read())
+    rows = {r["id"]: r for r in t["rows"]}
+    K = impl.KINDS
+    pre = {0: []}
+    frontier = [0]
+    while frontier:
+        nxt = []
+        for s in frontier:
+            for k in range(1, 14):
+                ch = impl._chain(K[k])
+                seen_kind = None
+                for b in rows.get(s, {"branches": []})["branches"]:
+                    if b["kind"] in ch and (seen_kind is None or b["kind"] == seen_kind):
+                        seen_kind = b["kind"]
+                        if b["target"] not in pre and b["target"] in rows:
+                            pre[b["target"]] = pre[s] + [k]
+                            nxt.append(b["target"])
+        frontier = nxt
+    return pre
+
+
 def run_C02(ctx: Ctx) -> Result:
     res = Result()
     K = impl.KINDS
     L = ctx.n(4, 5)
     seqs = [list(t) for n in range(L + 1) for t in itertools.product(range(1, 14), repeat=n)]
+    # state-directed: a path to every state, then every kind, then every short suffix
+    try:
+        pre = state_prefixes()
+    except Exception:
+        pre = {}
+    SL = ctx.n(1, 2)
+    suffixes = [list(t) for n in range(SL + 1) for t in itertools.product(range(1, 14), repeat=n)]
+    closers = [[], [7, 9], [8], [5, 7], [10]]
+    for s_, p_ in sorted(pre.items()):
+        for k in range(1, 14):
+            for suf in suffixes:
+                seqs.append(p_ + [k] + suf)
+            for c in closers:
+                seqs.append(p_ + [k] + c)
+    res.stats["states_with_prefix"] = len(pre)
     # longer sequences: sampled
     for _ in range(ctx.n(3000, 30000)):
         seqs.append([ctx.rng.choice([1, 2, 3, 3, 4, 5, 6, 7, 7, 8, 9, 9, 10, 11, 12, 13]) for _ in range(ctx.rng.randrange(L + 1, 14))])
+    covered = set()
     outs = driver.batch([driver.request("kinds", s) for s in seqs])
     for s, m in zip(seqs, outs):
         i = impl.kinds_run([K[x] for x in s])
         case = {"kinds": [K[x] for x in s]}
         res.note(case, i.get("accepts", False))
         res.stats["accepted" if i.get("accepts") else "rejected"] += 1
+        covered.update((a, b) for a, b in m.get("trace", []))
         if "crash" in i:
             res.fail("kinds", case, i, m, "crash driving the real parser: " + i["crash"])
         elif i["accepts"] != m["sentence"]:
@@ -361,6 +402,7 @@ def run_C02(ctx: Ctx) -> Result:
         elif i["accepts"] and i["events"] != m["events"]:
             res.fail("kinds", case, i["events"], m["events"], "start/end/build events differ: " + str(first_diff(i["events"], m["events"])))
     res.stats["exhaustive_upto"] = L
+    res.stats["table_branches_and_error_tails_covered"] = len(covered)
     # text level: acceptance of real documents = model's
     docs = streams.corpus_docs() + streams.doc_mix(ctx.rng, ctx.n(600, 6000))
     res.merge(streams.parse_stream(docs, lambda o: {"class": outcome_class(o)}, modes=(False,)))
